@@ -50,7 +50,16 @@ type Context struct {
 
 	// just used for adding preload links for server push
 	responseHeader http.Header
+
+	// how deeply .Include is nested at the moment; shared by the
+	// copies of this context that are handed to the included files
+	includeDepth *int
 }
+
+// maxIncludeDepth bounds the nesting of .Include: a file that includes
+// itself (or two files that include each other) must end in an error
+// instead of recursing until file descriptors or stack are used up.
+const maxIncludeDepth = 100
 
 // NewContextWithHeader creates a context with given response header.
 //
@@ -60,14 +69,22 @@ type Context struct {
 func NewContextWithHeader(rh http.Header) Context {
 	return Context{
 		responseHeader: rh,
+		includeDepth:   new(int),
 	}
 }
 
 // Include returns the contents of filename relative to the site root.
 func (c Context) Include(filename string, args ...interface{}) (string, error) {
+	if c.includeDepth == nil {
+		c.includeDepth = new(int)
+	}
 	c.Args = args
 	return ContextInclude(filename, c, c.Root)
 }
+
+// includeNesting is promoted to the types that embed Context, so that
+// ContextInclude finds the counter whatever context it is given.
+func (c Context) includeNesting() *int { return c.includeDepth }
 
 // Now returns the current timestamp in the specified format.
 func (c Context) Now(format string) string {
@@ -295,6 +312,15 @@ func (c Context) Markdown(filename string) (string, error) {
 // type may provide. You can embed Context in your type, then override its Include method
 // to call this function with ctx being the instance of your type, and fs being Context.Root.
 func ContextInclude(filename string, ctx interface{}, fs http.FileSystem) (string, error) {
+	if n, ok := ctx.(interface{ includeNesting() *int }); ok && n.includeNesting() != nil {
+		depth := n.includeNesting()
+		if *depth >= maxIncludeDepth {
+			return "", fmt.Errorf("%s: includes are nested more than %d levels deep", filename, maxIncludeDepth)
+		}
+		*depth++
+		defer func() { *depth-- }()
+	}
+
 	file, err := fs.Open(filename)
 	if err != nil {
 		return "", err
